@@ -65,7 +65,7 @@ ENV = """
     /// any INTEGER argument
     pub fn vk_any_integer() -> (i32, VkArg) { let a: i16 = kani::any(); (a as i32, VkArg::num(Variant::VInteger(a as i32))) }
     /// `n` symbolic letters over {a, b, e-acute}: byte length n..2n, includes non-ASCII text
-    pub fn vk_text(n: usize) -> String {
+    pub fn vk_utext(n: usize) -> String {
         let mut s = String::with_capacity(2 * n + 1);
         let mut k = 0usize;
         while k < n {
@@ -95,7 +95,9 @@ def re_sig_ok(sig):
 def open_file(b, name):
     rel = b.file(BI % name, "rusty_basic", "interpreter::built_ins::%s" % name,
                  uses="    use rusty_variant::Variant;\n    use crate::interpreter::variant_casts::VariantCasts;\n    use rusty_linter::core::QBNumberCast;\n")
-    if not b.files[rel]["body"]:
+    done = b.__dict__.setdefault("_bifn_files", set())
+    if rel not in done:
+        done.add(rel)
         b.helper(rel, ENV)
         b.helper(rel, sliced_run(name))
     return rel
@@ -248,7 +250,7 @@ def space_string(b, prefix, tier):
         for ch in r.chars() { assert!(ch as u32 == code as u32); n += 1; }
         assert!(n == %(c)d);
         std::mem::forget(vm);
-        """ % {"c": c, "arms": arms, "last": codes[-1]}, unwind=c + 4, tier=tier, cost=60,
+        """ % {"c": c, "arms": arms, "last": codes[-1]}, unwind=c + 4, tier="thorough", core=False, cost=60,   # CBMC: resource failure at 8 GB (String::push of a merged char)
               bounds="count %d; character codes %s" % (c, ", ".join(map(str, codes))), functions=[FN % "string_fn",
               "rusty_basic::interpreter::built_ins::string_fn::run_with_variant", "rusty_basic::interpreter::built_ins::string_fn::run_with_ascii_code_argument"])
     b.add(rel, prefix + "_string_code_invalid", """
@@ -275,7 +277,7 @@ def total_on_unicode(b, prefix, n, tier):
         rel = open_file(b, which)
         for c in range(0, 2 * n + 2):
             b.add(rel, "%s_%s_total_len%d_count%d" % (prefix, which, n, c), """
-        let s = vk_text(%(n)d);
+        let s = vk_utext(%(n)d);
         let blen = s.len();
         let cv = VkArg::num(Variant::VInteger(%(c)d));
         let mut vm = VkInterp::new(vec![VkArg::text(s), cv]);
@@ -290,7 +292,7 @@ def total_on_unicode(b, prefix, n, tier):
     for which in ("ltrim", "rtrim", "ucase", "lcase"):
         rel = open_file(b, which)
         b.add(rel, "%s_%s_total_len%d" % (prefix, which, n), """
-        let s = vk_text(%(n)d);
+        let s = vk_utext(%(n)d);
         let mut vm = VkInterp::new(vec![VkArg::text(s)]);
         match vk_run(&mut vm) {
             Ok(()) => assert!(vm.ctx.out.calls == 1),
@@ -299,3 +301,104 @@ def total_on_unicode(b, prefix, n, tier):
         std::mem::forget(vm);
         """ % {"n": n}, unwind=2 * n + 3, tier=tier, cost=30 + 20 * n,
               bounds="every text of exactly %d letters over {a, b, U+00E9}" % n, functions=[FN % which])
+
+
+# ---------------------------------------------------------------------------------------------------------------------
+# lint rule vs run-time body: what the static checker lets through is what the run time can handle (C08, C12)
+
+LINT = "rusty_linter/src/built_ins/%s.rs"
+ARGV = "rusty_linter/src/built_ins/arg_validation.rs"
+
+LINT_ENV = """
+    // ---- text of rusty_linter's arg_validation.rs: the trait with its default methods, unchanged ----
+    pub %(trait)s
+    /// the static types of the arguments of a call: what the argument rules look at
+    pub struct VkTypes { pub t: [TypeQualifier; 3], pub n: usize }
+    impl VkTypes {
+        pub fn len(&self) -> usize { self.n }
+        pub fn is_empty(&self) -> bool { self.n == 0 }
+        fn vk_req(&self, index: usize, q: TypeQualifier) -> Result<(), LintErrorPos> {
+            assert!(index < self.n);                     // Expressions[index] panics out of range
+            if self.t[index].can_cast_to(&q) { Ok(()) } else { Err(LintError::ArgumentTypeMismatch.at_pos(Position::new(1, 1))) }
+        }
+    }
+    /// the primitive rules on the type of an argument (for `Expressions` they look at the expression's type; the real CanCastTo decides)
+    impl ArgValidation for VkTypes {
+        fn require_integer_argument(&self, index: usize) -> Result<(), LintErrorPos> { self.vk_req(index, TypeQualifier::PercentInteger) }
+        fn require_long_argument(&self, index: usize) -> Result<(), LintErrorPos> { self.vk_req(index, TypeQualifier::AmpersandLong) }
+        fn require_double_argument(&self, index: usize) -> Result<(), LintErrorPos> { self.vk_req(index, TypeQualifier::HashDouble) }
+        fn require_numeric_argument(&self, index: usize) -> Result<(), LintErrorPos> {
+            assert!(index < self.n);
+            if self.t[index] != TypeQualifier::DollarString { Ok(()) } else { Err(LintError::ArgumentTypeMismatch.at_pos(Position::new(1, 1))) }
+        }
+        fn require_string_argument(&self, index: usize) -> Result<(), LintErrorPos> { self.vk_req(index, TypeQualifier::DollarString) }
+        fn require_string_variable(&self, _index: usize) -> Result<(), LintErrorPos> { kani::assume(false); Ok(()) }
+        fn require_string_ref(&self, _index: usize) -> Result<(), LintErrorPos> { kani::assume(false); Ok(()) }
+        fn require_variable_of_built_in_type(&self, _index: usize) -> Result<(), LintErrorPos> { kani::assume(false); Ok(()) }
+        fn require_variable(&self, _index: usize) -> Result<(), LintErrorPos> { kani::assume(false); Ok(()) }
+        fn require_one_argument(&self, pos: Position) -> Result<(), LintErrorPos> {
+            if self.len() != 1 { Err(LintError::ArgumentCountMismatch.at_pos(pos)) } else { Ok(()) }
+        }
+        fn require_zero_arguments(&self, pos: Position) -> Result<(), LintErrorPos> {
+            if self.is_empty() { Ok(()) } else { Err(LintError::ArgumentCountMismatch.at_pos(pos)) }
+        }
+        fn expr_pos(&self, _index: usize) -> &ExpressionPos { panic!("not an expression list") }
+    }
+    // ---- text of rusty_linter's built_ins/%(name)s.rs lint(), unchanged, on the argument types ----
+    pub fn vk_lint(args: &VkTypes, pos: Position) -> Result<(), LintErrorPos> {%(lint)s}
+    pub fn vk_q(k: u8) -> TypeQualifier {
+        match k { 0 => TypeQualifier::PercentInteger, 1 => TypeQualifier::AmpersandLong, 2 => TypeQualifier::BangSingle,
+                  3 => TypeQualifier::HashDouble, _ => TypeQualifier::DollarString }
+    }
+    pub fn vk_arg_of(q: TypeQualifier) -> VkArg {
+        match q {
+            TypeQualifier::PercentInteger => VkArg::num(Variant::VInteger(1)),
+            TypeQualifier::AmpersandLong => VkArg::num(Variant::VLong(1)),
+            TypeQualifier::BangSingle => VkArg::num(Variant::VSingle(1.0)),
+            TypeQualifier::HashDouble => VkArg::num(Variant::VDouble(1.0)),
+            // the empty text: what matters is which accessor the body applies to which argument (a non-empty text merged with the numeric
+            // case makes every string operation of the body run on a string of symbolic size: out of memory)
+            _ => VkArg::text(String::new()),
+        }
+    }
+"""
+
+LINT_USES = ("    use rusty_linter::core::{CanCastTo, LintError, LintErrorPos};\n    use rusty_parser::{Expression, ExpressionPos, TypeQualifier};\n"
+             "    use rusty_common::{AtPos, Position};\n")
+
+
+def lint_vs_run(b, prefix, name, tier, core=True):
+    """Every argument list (0..3 arguments, each of any of the five built-in types) that the sliced lint rule of the built-in accepts is one
+    the sliced run-time body can work on: it reads a string only where it gets a string and a number only where it gets a number (the
+    stand-in argument asserts its kind, like to_str_unchecked does), never reads past the arguments and never raises Type mismatch."""
+    rel = open_file(b, name)
+    b.file(rel, "rusty_basic", "interpreter::built_ins::%s" % name, uses=LINT_USES)
+    src = slicer.read(LINT % name)
+    sig, body = slicer.function(src, "lint")
+    if "args: &Expressions" not in " ".join(sig.split()):
+        raise slicer.SliceError("unexpected signature of the lint rule of %s: %s" % (name, " ".join(sig.split())))
+    trait = slicer.item_text(slicer.read(ARGV), r"trait\s+ArgValidation\b")
+    b.helper(rel, LINT_ENV % {"trait": trait, "name": name, "lint": body})
+    b.add(rel, "%s_%s_lint_vs_run" % (prefix, name), """
+        let n: usize = kani::any();
+        kani::assume(n <= 3);
+        let t = [vk_q(kani::any()), vk_q(kani::any()), vk_q(kani::any())];
+        let types = VkTypes { t, n };
+        match vk_lint(&types, Position::new(1, 1)) {
+            Err(e) => { std::mem::forget(e); }                  // rejected by the checker: nothing to run
+            Ok(()) => {
+                let mut args: Vec<VkArg> = Vec::with_capacity(3);
+                let mut k = 0usize;
+                while k < 3 { if k < n { args.push(vk_arg_of(t[k])); } k += 1; }
+                let mut vm = VkInterp::new(args);
+                match vk_run(&mut vm) {
+                    Ok(()) => assert!(vm.ctx.out.calls == 1),
+                    Err(e) => { assert!(e != RuntimeError::TypeMismatch); let c = e.get_code(); assert!(c > 0); std::mem::forget(e); }
+                }
+                std::mem::forget(vm);
+            }
+        }
+        """, unwind=6, tier=tier, core=core, cost=120,
+          bounds="every argument list of 0..3 arguments, each of any of the five built-in types (values: 1, the empty text)",
+          functions=["rusty_linter::built_ins::%s::lint (body, sliced)" % name, "rusty_linter::built_ins::arg_validation::ArgValidation (trait text, sliced: default methods)",
+                     "rusty_linter::core::CanCastTo for TypeQualifier", FN % name])
